@@ -180,6 +180,8 @@ impl<'a> RegExp<'a> {
 
 impl Display for RegExp<'_> {
     fn fmt(&self, f: &mut Formatter<'_>) -> Result {
+        #[cfg(grex_verif)]
+        crate::verif::point("regexp.display");
         let flag =
             if self.config.is_case_insensitive_matching && self.config.is_verbose_mode_enabled {
                 Component::IgnoreCaseAndVerboseModeFlag.to_repr(self.config.is_output_colorized)
